@@ -21,7 +21,7 @@ PROBES = ['mass_matrix_sweeper', 'residual_checked', 'stopped_by_residual', 'sto
 
 def plan(tier):
     if tier == 'thorough':
-        return {'n': 150000, 'chunk': 200, 'timeout': 300, 'selftest': 40, 'budget_s': 7200, 'minimize_s': 300}
+        return {'n': 150000, 'chunk': 200, 'timeout': 300, 'selftest': 40, 'budget_s': 3000, 'minimize_s': 300}
     return {'n': 3000, 'chunk': 60, 'timeout': 300, 'selftest': 10, 'budget_s': 900, 'minimize_s': 120}
 
 
